@@ -158,6 +158,11 @@ SSC_KEYS = [k for k in KEYS if k != "NOTEDATA"]
 
 
 # ------------------------------------------------------------------ model filesystem
+class ModelLimit(Exception):
+    """the code under test used the model filesystem in a way the model cannot answer (e.g. a binary read while decoding is
+    an abstract outcome bit): the obligation is inconclusive, never a violation"""
+
+
 class _Writer(io.StringIO):
     def __init__(self, fs, name):
         super().__init__()
@@ -215,6 +220,14 @@ class ModelFS:
             raw = io.BytesIO(self.files[name].encode("utf-8"))
             raw.name = name
             return io.TextIOWrapper(raw, encoding="utf-8", newline="")
+        if mode != "w":
+            if mode == "rb" and self.decodes is None:
+                if name not in self.files:
+                    raise FileNotFoundError(name)
+                raw = io.BytesIO(self.files[name].encode("utf-8"))
+                raw.name = name
+                return raw
+            raise ModelLimit("ModelLimit: open(%r, %r) is not modelled" % (name, mode))
         self.files[name] = ""  # truncation on open('w')
         self.write_encoding[name] = encoding
         return _Writer(self, name)
@@ -244,6 +257,64 @@ class ModelFS:
 
     def exists(self, path):
         return path in self.files or self.isdir(path)
+
+
+class _BytesWriter(io.StringIO):
+    def __init__(self, fs, name, encoding, errors):
+        super().__init__()
+        self.fs, self.name_, self.enc_, self.errors_ = fs, name, encoding, errors
+
+    def _flush(self):
+        self.fs.files[self.name_] = self.getvalue().encode(self.enc_, self.errors_ or "strict")   # real codec
+
+    def write(self, s):
+        r = super().write(s)
+        self._flush()
+        return r
+
+    def close(self):
+        if not self.closed:
+            self._flush()
+            self.fs.closed.append(self.name_)
+        super().close()
+
+
+class BytesFS:
+    """byte-level model filesystem: files are bytes, text-mode reads and writes go through Python's real codecs (the trusted
+    base the property names), binary reads are allowed.  Newline translation is switched off (the property excludes it)."""
+
+    def __init__(self, files):
+        self.files = dict(files)
+        self.log = []
+        self.closed = []
+
+    def open(self, name, mode="r", encoding=None, errors=None, **kw):
+        self.log.append(("open", name, mode, encoding))
+        if mode in ("r", "rt"):
+            if name not in self.files:
+                raise FileNotFoundError(name)
+            raw = io.BytesIO(self.files[name])
+            raw.name = name
+            return io.TextIOWrapper(raw, encoding=encoding or "utf-8", errors=errors, newline="")
+        if mode == "rb":
+            if name not in self.files:
+                raise FileNotFoundError(name)
+            raw = io.BytesIO(self.files[name])
+            raw.name = name
+            return raw
+        if mode in ("w", "wt"):
+            self.files[name] = b""
+            return _BytesWriter(self, name, encoding or "utf-8", errors)
+        raise ModelLimit("ModelLimit: open(%r, %r) is not modelled" % (name, mode))
+
+    def exists(self, path):
+        return path in self.files
+
+    def isdir(self, path):
+        return False
+
+    def listdir(self, path):
+        return []
 
 
 # ------------------------------------------------------------------ engine self-test (must come back Confirmed)
